@@ -486,3 +486,85 @@ def r8(cx):
             cx.passed(W + "WriteAheadLog::" + fn, "walks-segments-in-listed-order", [bb.sp(rd[0])])
         else:
             cx.violation(W + "WriteAheadLog::" + fn, "walks-segments-in-listed-order", "%s does not read the segments in the order list_segments returns them" % fn, [])
+
+
+LASTSEQ = W + "last_sequence_in_segments"
+
+
+def _inner_option(b, bi, si):
+    """'None' / 'Some' / None(unknown) for the payload of an `Ok(..)` aggregate assigned at (bi, si)"""
+    if si == M.T:
+        return None
+    rv = b.blocks[bi]["stmts"][si].get("rv") or {}
+    if rv.get("k") != "agg" or not rv.get("ops"):
+        return None
+    o = rv["ops"][0]
+    l = o.get("pl", {}).get("l") if o.get("k") in ("move", "copy") else None
+    if l is None:
+        return None
+    vs = set()
+    for (dbi, dsi, k, pay) in b.defs().get(l, []):
+        if k == "assign" and pay["rv"].get("k") == "agg" and pay["rv"].get("adt", "").endswith("Option"):
+            vs.add(pay["rv"].get("variant"))
+        else:
+            vs.add("?")
+    return vs.pop() if len(vs) == 1 and "?" not in vs else None
+
+
+@rule("C05", "R9", "numbering is above every record on disk: open hands the complete segment list to last_sequence_in_segments, which answers `none` only after the walk over ALL "
+      "segments (newest first) is exhausted and answers `some` only with the last sequence of a listed segment - no segment holding acknowledged entries is left unread")
+def r9(cx):
+    ok_, ob = cx.need_body(OPEN)
+    sites = M.find_calls(ob, lambda c: c == LASTSEQ)
+    if cx.floor("last_sequence_in_segments calls in open", len(sites), 1, ok_):
+        for x in sites:
+            o = M.operand_origins(ob, ob.term(x)["args"][0], at=(x, M.T))
+            calls = {c[1][1] for c in o if c[0] == "call"}
+            if calls == {W + "list_segments"} and all(M.strip_unwraps(c[2]) == "" for c in o if c[0] == "call"):
+                cx.passed(ok_, "whole-segment-list", [ob.sp(x)])
+            else:
+                cx.violation(ok_, "whole-segment-list", "%s: the segments searched for the last sequence number are not the complete list_segments result (%s): a record in an omitted "
+                             "segment can carry a sequence number that is handed out again" % (ob.sp(x), sorted(calls)), [ob.sp(x)])
+    ck, b = cx.need_body(LASTSEQ)
+    nexts = []
+    for bi, t in b.calls():
+        if not t["callee"].endswith("::next"):
+            continue
+        o = M.operand_origins(b, t["args"][0], at=(bi, M.T))
+        if o and all(x[0] == "arg" and x[1] == 1 and x[2] == "" for x in o):
+            nexts.append(bi)
+    if not nexts:
+        cx.violation(ck, "walks-all-segments", "%s: last_sequence_in_segments does not iterate over its whole `segments` argument: segments it does not read can hold acknowledged "
+                     "entries whose sequence numbers are then handed out again" % b.j["span"], [b.j["span"]])
+        return
+    newest_first = all("iter::Rev<" in b.term(n)["callee"] or "iter::Rev<" in (b.term(n).get("resolved") or "") for n in nexts)
+    if newest_first:
+        cx.passed(ck, "newest-first", [b.sp(nexts[0])])
+    else:
+        cx.violation(ck, "newest-first", "%s: the first segment with data found by this walk is not the newest one: its last sequence is below records in later segments" % b.sp(nexts[0]), [b.sp(nexts[0])])
+    none_edges = set()
+    for n in nexts:
+        none_edges |= M.outcome_edges(b, n)[1]
+    exits = [e for e in M.exit_defs(b) if e[2] == "ok"]
+    cx.floor("Ok exits of last_sequence_in_segments", len(exits), 2, ck)
+    for (bi, si, _) in exits:
+        v = _inner_option(b, bi, si)
+        if v == "Some":
+            rv = b.blocks[bi]["stmts"][si]["rv"]
+            o = M.operand_origins(b, rv["ops"][0], at=(bi, si))
+            src = [c for c in o if c[0] == "call" and c[1][1] == W + "last_sequence_for_segment"]
+            good = bool(src)
+            for c in src:
+                ao = M.operand_origins(b, b.term(c[1][0])["args"][0], at=(c[1][0], M.T))
+                if not any(x[0] == "arg" and x[1] == 1 and M.strip_unwraps(x[2]).endswith(".path") for x in ao):
+                    good = False
+            if good:
+                cx.passed(ck, "some-is-a-listed-segments-last", [b.sp(bi, si)])
+            else:
+                cx.violation(ck, "some-is-a-listed-segments-last", "%s: the sequence returned is not last_sequence_for_segment of a segment of the list" % b.sp(bi, si), [b.sp(bi, si)])
+        else:
+            if none_edges and b.dominated_by_edges(bi, none_edges):
+                cx.passed(ck, "none-only-after-all-segments", [b.sp(bi, si)])
+            else:
+                cx.violation(ck, "none-only-after-all-segments", "%s: `no sequence found` (or an answer of unknown shape) is returned before every segment has been examined: acknowledged entries in an older "
+                             "segment are ignored and numbering restarts at or below them - recovery then sees duplicate or regressing sequence numbers" % b.sp(bi, si), [b.sp(bi, si)])
